@@ -104,7 +104,7 @@ def cases(tier: str, seed: int) -> List[Dict[str, Any]]:
     out = [dict(c, kind="prog", seed=seed) for c in _progs(tier)]
     out += [dict(c, kind="fx", seed=seed) for c in _fx_progs(tier)]
     for f in ("E4M3rn", "E5M2rn", "E2M1rn", "E8M23rn", "E5M2sr3"):
-        for shape in ([], [7], [3, 5], [2, 3, 4]):
+        for shape in ([], [7], [3, 5], [2, 3, 4], "sweep"):
             out.append({"kind": "prim", "fmt": f, "shape": shape})
     return out
 
@@ -135,23 +135,37 @@ def run_case(case: Dict[str, Any]) -> Dict[str, Any]:
         fm = {"E4M3rn": FPFormat(4, 3, "nearest"), "E5M2rn": FPFormat(5, 2, "nearest"), "E2M1rn": FPFormat(2, 1, "nearest"),
               "E8M23rn": FPFormat(8, 23, "nearest"), "E5M2sr3": FPFormat(5, 2, "stochastic", 3)}[case["fmt"]]
         g = torch.Generator().manual_seed(3)
-        x0 = torch.randn(case["shape"], generator=g) * 3
-        up = torch.randn(case["shape"], generator=g) * 0.01
         ident = f"prim|{case['fmt']}"
+        if case["shape"] == "sweep":
+            # every float32 exponent (zero, subnormals, far beyond the format's range, +-inf) x boundary mantissas
+            ident += "|sweep"
+            ex = torch.arange(0, 256, dtype=torch.int64)
+            ma = torch.tensor([0, 1, 2**22, 2**22 + 1, 2**23 - 1, 0x2AAAAA, 0x555555], dtype=torch.int64)
+            bits = ((ex[:, None] << 23) | ma[None, :]).flatten()
+            bits = bits[(bits >> 23 != 255) | (bits & 0x7FFFFF == 0)]  # no NaN payloads
+            bits = torch.cat([bits, bits | (1 << 31)])
+            sweep = (bits - ((bits >> 31) << 32)).to(torch.int32).view(torch.float32)
+            x0, up = sweep.clone(), sweep.flip(0).clone()
+        else:
+            x0 = torch.randn(case["shape"], generator=g) * 3
+            up = torch.randn(case["shape"], generator=g) * 0.01
+
+        def same(a: Any, b: Any) -> bool:  # bit pattern (sign of zero included)
+            return a.shape == b.shape and a.dtype == b.dtype and torch.equal(a.contiguous().view(torch.int32), b.contiguous().view(torch.int32))
         with mock.patch.object(torch, "randint", pinned_randint):
             x = x0.clone().requires_grad_(True)
             y = fm.quantise_fwd(x)
             (gx,) = torch.autograd.grad(y, x, up)
-            if not torch.equal(y.detach(), fm.quantise(x0)):
+            if not same(y.detach(), fm.quantise(x0)):
                 viol.append({"key": ident + "|quantise_fwd_value", "msg": f"{case}"})
-            if not torch.equal(gx, up):
+            if not same(gx, up):
                 viol.append({"key": ident + "|quantise_fwd_gradient_touched", "msg": f"{case}"})
             x = x0.clone().requires_grad_(True)
             y = fm.quantise_bwd(x)
             (gx,) = torch.autograd.grad(y, x, up)
-            if not torch.equal(y.detach(), x0):
+            if not same(y.detach(), x0):
                 viol.append({"key": ident + "|quantise_bwd_value_touched", "msg": f"{case}"})
-            if not torch.equal(gx, fm.quantise(up)):
+            if not same(gx, fm.quantise(up)):
                 viol.append({"key": ident + "|quantise_bwd_gradient", "msg": f"{case}"})
         return {"violations": viol, "steps": 2, "outcome": "prim"}
 
